@@ -46,21 +46,11 @@ def CorrV.isAbsent : CorrV → Bool
 
 def zero16 : Bytes := List.replicate 16 0
 
-/-- the first twelve bytes of the 16-byte form of an IPv4 address (package net: v4InV6Prefix) -/
-def v4Prefix : Bytes := [0, 0, 0, 0, 0, 0, 0, 0, 0, 0, 255, 255]
-
-/-- net.IP.To4: a 4-byte value is the address itself, a 16-byte value with the IPv4-mapped prefix
-    (net.IPv4zero, net.ParseIP("10.0.0.1"): what in-process callers hand over) is its last four
-    bytes, any other value is not an IPv4 address (nil) -/
-def to4 (b : Bytes) : Option Bytes :=
-  if b.length = 4 then some b
-  else if b.length = 16 ∧ b.take 12 = v4Prefix then some (b.drop 12)
-  else none
-
 /-- "empty" in the sense of correlateRecords: "", 0, 0.0.0.0, :: - and a field the record lacks.
     The value of an IPv4 element is the net.IP the caller built the element with, in its 4-byte or
-    its 16-byte form; the code asks `val.To4().String() == "0.0.0.0"`, so both forms of 0.0.0.0 are
-    empty (a value which is no IPv4 address at all prints as "<nil>": not empty). The VALUE stays the
+    in its 16-byte form (net.IPv4zero, net.ParseIP("10.0.0.1"): what in-process callers hand over);
+    the code asks `val.To4().String() == "0.0.0.0"` (`to4` = net.IP.To4, Model/IE.lean), so both forms
+    of 0.0.0.0 are empty (a value which is no IPv4 address at all prints as "<nil>": not empty). The VALUE stays the
     byte string it is: the merge stores the incoming element's value object, a dump shows it. -/
 def CorrV.isEmpty : CorrV → Bool
   | .str b => b.isEmpty
